@@ -796,3 +796,132 @@ def check_name_scope(repo, res, rule):
     _guard(scenario, res, rule, 'every registered binding carries .scope (also under a global declaration)', SCOPE,
            'Flow.add_name must stamp name.scope on every binding it registers: ImportedName.resolve and Name.filename dereference it, '
            'so `global json; import json` followed by a completion on json would raise AttributeError')
+
+
+# ---------------------------------------------------------------------------
+# C04-R1 instances: which loop shapes answer differently depending on what was asked first
+# ---------------------------------------------------------------------------
+
+def loop_order_records(repo):
+    """For every loop construct (for / async for / while) the region graph the extractor builds (E1, base path of the largest
+    shape) is rebuilt from supp's own Flow / LoopFlow objects, once with every body statement a compound one (it leaves a region of
+    its own) and once with simple body statements (they stay in the region they start in).  One name is bound before the loop and
+    again at the end of the body (a loop-carried definition), another only at the end of the body.  Every read position of the
+    construct (test or iterable, each body statement, the else block, the code after the loop) is asked alone on a fresh graph and
+    after each other position: a different answer is an order dependence of that shape.
+    -> list of (cls, mode, asked, first, alone, after_first)"""
+    from . import rules_e1 as R
+    from .templates import Template
+
+    def build():
+        m = get_model(repo)
+        out = []
+        n = 0
+        saved = m.it.MAX_STEPS, m.it.memoise_cached
+        m.it.MAX_STEPS = 3000000
+        m.it.memoise_cached = True        # the subject: what supp's own memo attributes keep between two lookups
+        try:
+            return explore_loops(m)
+        finally:
+            m.it.MAX_STEPS, m.it.memoise_cached = saved
+
+    def explore_loops(m):
+        out = []
+        n = 0
+        for cls in ('For', 'AsyncFor', 'While'):
+            summs = R.summaries(repo).get(cls) or []
+            s = next((x for x in summs if x.variant == 'max'), None)
+            bp = R.base_path(s) if s is not None else None
+            if bp is None or bp.raised is not None:
+                raise AnalysisError('no base summary for %s' % cls)
+            for mode in ('compound', 'simple'):
+                t = Template(s.root, bp)
+                alias = dict(t.alias)
+                if mode == 'simple':
+                    for tok, r in bp.regions.items():
+                        if r.get('exit_of') and t.sort_of(r['exit_of'][0]) == 'stmt':
+                            alias[tok] = r['exit_of'][1]
+
+                def canon(tok):
+                    seen = set()
+                    while tok in alias and tok not in seen:
+                        seen.add(tok)
+                        tok = alias[tok]
+                    return tok
+                reads = []         # (label, region token, line)
+                for i, (path, reg, _l) in enumerate(bp.visits):
+                    reads.append((path[5:] if path.startswith('node.') else path, canon(reg), 10 * (i + 1)))
+                final = canon(bp.final_flow)
+                reads.append(('after the loop', final, 10 * (len(bp.visits) + 2)))
+                if mode == 'compound':
+                    for lab, _reg, line in list(reads):
+                        if 'exit(node.%s)' % lab in bp.regions and t.sort_of('node.' + lab) == 'stmt':
+                            reads.append(('inside ' + lab, 'inside ' + lab, line + 3))
+                body_reads = [r for r in reads if r[0].startswith('body')]
+                if not body_reads:
+                    raise AnalysisError('%s: no body statement in the summary' % cls)
+                last_label, last_reg, last_line = body_reads[-1]
+                # where a binding made by the last body statement lives: its exit region (compound) or its own region (simple)
+                last_path = 'node.' + last_label
+                late_reg = canon('exit(%s)' % last_path) if mode == 'compound' else last_reg
+
+                def fresh():
+                    m.it.steps = 0
+                    builtins = Obj(m.cls('BaseScope'), {'names': {}}, 'builtins')
+                    top = m.scope('SourceScope', builtins)
+                    tf = m.flow('top', top)
+                    top.attrs['flow'] = tf
+                    fs = m.scope('FuncScope', top, top)
+                    toks = sorted({canon(k) for k in bp.regions} | {canon(p) for r in bp.regions.values() for p in r['parents'] + r['loops']}
+                                  | {'CUR', final})
+                    flows = {tok: m.flow(tok, fs) for tok in toks}
+                    fs.attrs['flow'] = flows['CUR']
+                    for tok, r in bp.regions.items():
+                        if canon(tok) != tok:
+                            continue
+                        ps = [flows[canon(p)] for p in r['parents'] if canon(p) != tok]
+                        if mode == 'compound' and r.get('exit_of') and t.sort_of(r['exit_of'][0]) == 'stmt' and len(ps) == 1:
+                            # a compound statement: a branch inside it (entered from where the statement starts) and the region
+                            # it leaves behind, reached through the branch or around it
+                            inner = m.flow('inside ' + r['exit_of'][0], fs, [ps[0]])
+                            flows['inside ' + r['exit_of'][0][5:]] = inner
+                            ps = [inner, ps[0]]
+                        flows[tok].attrs['parents'] = ps
+                        for lp in r['loops']:
+                            m.it.call(m.it.getattr(flows[tok], 'loop'), [flows[canon(lp)]], {})
+                    labels = {}
+                    pre = m.name('x', (1, 0))
+                    m.add(flows['CUR'], pre)
+                    late_x = m.name('x', (last_line + 1, 8))
+                    late_y = m.name('y', (last_line + 2, 8))
+                    m.add(flows[late_reg], late_x)
+                    m.add(flows[late_reg], late_y)
+                    labels[pre.oid], labels[late_x.oid], labels[late_y.oid] = 'x before the loop', 'x at the end of the body', 'y at the end of the body'
+                    return flows, labels
+
+                def ask(flows, labels, read):
+                    _label, reg, line = read
+                    m.it.steps = 0
+                    tab = m.names_at(flows[reg], (line, 0))
+                    ans = []
+                    for ident in ('x', 'y'):
+                        d = m.describe(m.lookup(tab, ident))
+                        ans.append(None if d is None else tuple(sorted(labels.get(x, str(x)) for x in d)))
+                    return tuple(ans)
+                alone = {}
+                for r in reads:
+                    flows, labels = fresh()
+                    alone[r] = ask(flows, labels, r)
+                    n += 1
+                for q in reads:
+                    for first in reads:
+                        if first == q:
+                            continue
+                        flows, labels = fresh()
+                        ask(flows, labels, first)
+                        got = ask(flows, labels, q)
+                        n += 1
+                        if got != alone[q]:
+                            out.append((cls, mode, q[0], first[0], alone[q], got))
+        return out, n
+    return repo.memo('loop-order-model', build)
